@@ -260,14 +260,26 @@ pub struct Binary;
 
 fn decode_session(bytes: &[u8]) -> (Vec<Value>, Vec<i64>, String) {
     let mut s = Src::new(bytes);
-    let (stratum, mut text) = gen_doc(&mut s);
+    let (mut stratum, mut text) = gen_doc(&mut s);
+    // one session in 25 works on a document of 66-90 KiB (more than a pipe buffer holds), with
+    // fewer requests (the handlers' position arithmetic is quadratic in the document size)
+    let big = s.chance(1, 25) && !text.is_empty();
+    if big {
+        let unit = text.clone();
+        let want = 66_000 + s.below(24_000);
+        while text.len() < want {
+            text.push('\n');
+            text.push_str(&unit);
+        }
+        stratum = format!("{}-66KiB+", stratum);
+    }
     let uri = "file:///w/c02.spl";
     let mut msgs = vec![session::request(1, "initialize", session::initialize_params(s.chance(1, 2))), session::notification("initialized", json!({}))];
     msgs.push(session::notification("textDocument/didOpen", json!({ "textDocument": { "uri": uri, "languageId": "spl", "version": 1, "text": text } })));
     let mut ids = vec![1i64];
     let mut id = 1;
     let mut version = 1i64;
-    let n = 20 + s.below(40);
+    let n = if big { 5 + s.below(6) } else { 20 + s.below(40) };
     for _ in 0..n {
         if s.chance(1, 4) {
             // one notification with 1-3 content changes, each relative to its predecessor; one
